@@ -392,7 +392,8 @@ def shard_cuts(m, items, inputs=()):
 
 def run(rc):
     quick = rc.tier == 'quick'
-    rc.pmap(shard_cuts, list(c05.programs(2, 1 if quick else 2)), inputs=list(gs.inputs(['1', '2'], 4 if quick else 6)))
+    rc.pmap(shard_cuts, [p for p in c05.programs(2, 1 if quick else 2) if not p[0].startswith('include-')],   # (an included rule would have to precede `start`)
+            inputs=list(gs.inputs(['1', '2'], 4 if quick else 6)))
     exps = c01.expressions(3 if quick else 4)
     if not quick:
         # 4-node trees: keep those the 3-node corpus cannot contain (names/overrides over composites, joins, nested closures)
